@@ -115,8 +115,20 @@ class Interp:
             return env[t]
         if tag == "tuple":
             return tuple(self.val(x, env) for x in t[1])
-        if tag == "pair":
-            return ("pair", self.val(t[1], env), self.val(t[2], env))
+        if tag in ("pair", "pairacc"):
+            return ("pair", self.freeze(self.val(t[1], env)), self.freeze(self.val(t[2], env)))
+        if tag == "idx":
+            return ("position", self.freeze(self.val(t[1], env)))  # the model lists have no duplicates: one position per element
+        if tag == "dictview":
+            # a dict filled by `d[k] = v` stores: a later store to an equal key replaces the earlier one
+            store: dict = {}
+            for g in t[2][1]:
+                self.gen_pairs(g, 0, dict(env), store)
+            if t[1] == "values":
+                return ("seq", tuple(store.values()))
+            if t[1] == "items":
+                return ("seq", tuple((k, v) for k, v in store.items()))
+            return ("seq", tuple(store))
         if tag == "fstr":
             return "".join(self.as_str(self.val(p, env)) for p in t[1])
         if tag == "bag":
@@ -155,7 +167,13 @@ class Interp:
             parts = self.bag(t[2], env, multiset=True) if t[2][0] == "bag" else self.iterate(self.val(t[2], env))
             return ("joined", sep, tuple(sorted(self.as_str(x) for x in (parts.elements() if isinstance(parts, Counter) else parts))))
         if tag == "attr":
-            return ("attr", self.freeze(self.val(t[1], env)), t[2])
+            v = self.freeze(self.val(t[1], env))
+            if rooted_at_caught_value(v) or (isinstance(v, tuple) and v and v[0] == "caught"):
+                return ("attr", v, t[2])
+            # an attribute of an unknown object is an uninterpreted function that need not be injective: two different rules
+            # may have the same subject (two values per attribute name)
+            # (odd assignments: every object has the same value - e.g. all rules share one subject)
+            return ("attrval", t[2], 0 if self.salt % 2 else _h(self.salt, "attr", v, t[2]) % 2)
         if tag == "index":
             v, i = self.val(t[1], env), self.val(t[2], env)
             if isinstance(v, tuple) and v and v[0] not in ("attr", "caught", "result", "tok", "pair", "fluent", "stage", "inst", "exc", "joined", "index") and isinstance(i, int):
@@ -206,15 +224,31 @@ class Interp:
             return tuple(self.freeze(x) for x in v)
         return v
 
+    def gen_pairs(self, g, i, env, store) -> None:
+        _g, elt, fors, c = g
+        if i == len(fors):
+            if self.cond(c, env) and elt[0] in ("pair", "pairacc"):
+                store[self.freeze(self.val(elt[1], env))] = self.freeze(self.val(elt[2], env))
+            elif elt[0] not in ("pair", "pairacc"):
+                raise Cannot("dict with a non-pair element")
+            return
+        v, src = fors[i]
+        for x in self.iterate(self.val(src, env)):
+            env2 = dict(env)
+            env2[v] = x
+            self.gen_pairs(g, i + 1, env2, store)
+
     def iterate(self, v):
         """Elements of a value used as an iterable (deterministic order)."""
+        if isinstance(v, tuple) and len(v) == 2 and v[0] == "seq":
+            return list(v[1])
         if isinstance(v, dict):
             return sorted(v)
         if isinstance(v, (frozenset, set)):
             return sorted(v, key=repr)
         if isinstance(v, Counter):
             return sorted(v.elements(), key=repr)
-        if isinstance(v, tuple) and v and v[0] in ("stage", "valof", "attr", "index", "keys", "tok", "slice"):
+        if isinstance(v, tuple) and v and v[0] in ("stage", "valof", "attr", "index", "keys", "tok", "slice", "attrval", "elt"):
             # uninterpreted iterable: two distinct elements that depend on it
             return [("elt", v, 0), ("elt", v, 1)]
         if isinstance(v, tuple) and not (v and isinstance(v[0], str) and v[0] in ("pair", "fluent", "inst", "exc", "caught", "result", "joined", "KeyError")):
@@ -260,7 +294,7 @@ class Interp:
                 return bool(v)
             if rooted_at_caught_value(v):
                 return True  # the message of a violated rule is a non-empty string
-            if isinstance(v, tuple) and v and v[0] in ("tok", "attr", "index", "result", "valof", "caught", "elt"):
+            if isinstance(v, tuple) and v and v[0] in ("tok", "attr", "index", "result", "valof", "caught", "elt", "attrval"):
                 return self.oracle("truthy", v)
             return bool(v)
         if tag == "in":
@@ -290,6 +324,8 @@ class Interp:
                 return a is b
             return self.freeze(a) == self.freeze(b)
         if tag == "raised":
+            if self.salt < 2:
+                return True  # the first two assignments: every rule is violated
             return self.oracle("raised", c[1], c[2], self.scope(env))
         if tag in ("any", "all"):
             vals = [bool(x) for x in self.iterate(self.val(c[1], env))]
